@@ -106,6 +106,7 @@ func (fx *FuncExec) execCall(st *State, instr ssa.Instruction, c *ssa.CallCommon
 		for _, cs := range fx.fc.Calls {
 			if cs.Callee == short && cs.Ordinal == ord {
 				env := fx.specEnv(st, fx.entry)
+				fx.withLoop(env, st)
 				env.callArgs = args
 				for _, a := range cs.Asserts {
 					// evaluated in the discovery passes too (heap keys), obliged only in the real pass
